@@ -288,7 +288,7 @@ class DNASeqRecordWithCoordinates(DNASeqRecord):
                 sequence is aligned tp.
             orf (FeatureLocation): The open reading frame start and end.
         """
-        super().__init__(seq=seq, *args, **kwargs)
+        super().__init__(seq, *args, **kwargs)
         self.locations = locations or []
         # query index
         self.orf = orf
